@@ -664,7 +664,7 @@ impl RLN {
     /// ```
     #[cfg(not(feature = "stateless"))]
     pub fn get_proof<W: Write>(&self, index: usize, mut output_data: W) -> Result<()> {
-        let merkle_proof = self.tree.proof(index).expect("proof should exist");
+        let merkle_proof = self.tree.proof(index)?;
         let path_elements = merkle_proof.get_path_elements();
         let identity_path_index = merkle_proof.get_path_index();
 
@@ -798,9 +798,15 @@ impl RLN {
         // [ proof<128> | root<32> | external_nullifier<32> | x<32> | y<32> | nullifier<32> ]
         let mut input_byte: Vec<u8> = Vec::new();
         input_data.read_to_end(&mut input_byte)?;
+        if input_byte.len() < 288 {
+            return Err(Report::msg("input is shorter than a proof and its values"));
+        }
         let proof = ArkProof::deserialize_compressed(&mut Cursor::new(&input_byte[..128]))?;
 
-        let (proof_values, _) = deserialize_proof_values(&input_byte[128..]);
+        let (proof_values, read) = deserialize_proof_values(&input_byte[128..]);
+        if serialize_proof_values(&proof_values) != input_byte[128..128 + read] {
+            return Err(Report::msg("proof values are not canonically encoded"));
+        }
 
         let verified = verify_proof(&self.verification_key, &proof, &proof_values)?;
 
@@ -956,17 +962,28 @@ impl RLN {
     pub fn verify_rln_proof<R: Read>(&self, mut input_data: R) -> Result<bool> {
         let mut serialized: Vec<u8> = Vec::new();
         input_data.read_to_end(&mut serialized)?;
+        if serialized.len() < 296 {
+            return Err(Report::msg(
+                "input is shorter than a proof, its values and the signal length",
+            ));
+        }
         let mut all_read = 0;
         let proof =
             ArkProof::deserialize_compressed(&mut Cursor::new(&serialized[..128].to_vec()))?;
         all_read += 128;
         let (proof_values, read) = deserialize_proof_values(&serialized[all_read..]);
+        if serialize_proof_values(&proof_values) != serialized[all_read..all_read + read] {
+            return Err(Report::msg("proof values are not canonically encoded"));
+        }
         all_read += read;
 
         let signal_len = usize::try_from(u64::from_le_bytes(
             serialized[all_read..all_read + 8].try_into()?,
         ))?;
         all_read += 8;
+        if signal_len > serialized.len() - all_read {
+            return Err(Report::msg("declared signal length exceeds the input"));
+        }
 
         let signal: Vec<u8> = serialized[all_read..all_read + signal_len].to_vec();
 
@@ -1031,17 +1048,28 @@ impl RLN {
     pub fn verify_with_roots<R: Read>(&self, mut input_data: R, mut roots_data: R) -> Result<bool> {
         let mut serialized: Vec<u8> = Vec::new();
         input_data.read_to_end(&mut serialized)?;
+        if serialized.len() < 296 {
+            return Err(Report::msg(
+                "input is shorter than a proof, its values and the signal length",
+            ));
+        }
         let mut all_read = 0;
         let proof =
             ArkProof::deserialize_compressed(&mut Cursor::new(&serialized[..128].to_vec()))?;
         all_read += 128;
         let (proof_values, read) = deserialize_proof_values(&serialized[all_read..]);
+        if serialize_proof_values(&proof_values) != serialized[all_read..all_read + read] {
+            return Err(Report::msg("proof values are not canonically encoded"));
+        }
         all_read += read;
 
         let signal_len = usize::try_from(u64::from_le_bytes(
             serialized[all_read..all_read + 8].try_into()?,
         ))?;
         all_read += 8;
+        if signal_len > serialized.len() - all_read {
+            return Err(Report::msg("declared signal length exceeds the input"));
+        }
 
         let signal: Vec<u8> = serialized[all_read..all_read + signal_len].to_vec();
 
@@ -1278,12 +1306,18 @@ impl RLN {
         // We serialize_compressed the two proofs, and we get the corresponding RLNProofValues objects
         let mut serialized: Vec<u8> = Vec::new();
         input_proof_data_1.read_to_end(&mut serialized)?;
+        if serialized.len() < 288 {
+            return Err(Report::msg("input is shorter than a proof and its values"));
+        }
         // We skip deserialization of the zk-proof at the beginning
         let (proof_values_1, _) = deserialize_proof_values(&serialized[128..]);
         let external_nullifier_1 = proof_values_1.external_nullifier;
 
         let mut serialized: Vec<u8> = Vec::new();
         input_proof_data_2.read_to_end(&mut serialized)?;
+        if serialized.len() < 288 {
+            return Err(Report::msg("input is shorter than a proof and its values"));
+        }
         // We skip deserialization of the zk-proof at the beginning
         let (proof_values_2, _) = deserialize_proof_values(&serialized[128..]);
         let external_nullifier_2 = proof_values_2.external_nullifier;
